@@ -51,6 +51,13 @@ def swap8 (b : Bytes) : Bytes := (b.take 8).reverse ++ ((b.drop 8).take 8).rever
 
 def validAesKeyLen (k : Bytes) : Bool := k.length == 16 || k.length == 24 || k.length == 32
 
+/-- `Cipher(algorithms.AES(key), modes.XTS(tweak))`: the key is 32 or 64 bytes, split in halves (data key, tweak key);
+    equal halves are refused (`ValueError`) -/
+def xtsKeyCheck (key : Bytes) (k : Bytes → Bytes → PyRes Bytes) : PyRes Bytes :=
+  if key.length ≠ 32 ∧ key.length ≠ 64 then .error .other
+  else if key.take (key.length / 2) == key.drop (key.length / 2) then .error .other
+  else k (key.take (key.length / 2)) (key.drop (key.length / 2))
+
 /-! ## OTFAD — software side -/
 
 structure KeyBlob where
@@ -148,34 +155,42 @@ def KeyBlob.export (c : CryptoOps) (kb : KeyBlob) (kek : Bytes) (swapCnt : Nat) 
     | .error e => .error e
     | .ok p => .ok (zeroPad otfadExportBlobSize (revGroups swapCnt (kwWrap c kek (p.take otfadWrappedLen))))
 
-/-- the KEK used for key blob `i` when scrambling is enabled -/
+/-- `long_ix = (key_scramble_align >> (i * 2)) & 0x03` -/
+def scrambleIx (align i : Nat) : Nat := (align >>> (i * otfadScrambleSelBits)) &&& otfadScrambleSelMask
+
+/-- the KEK used for key blob `i` when scrambling is enabled: the 32-bit word `long_ix` of the KEK is xored with the
+    little-endian bytes of the (optionally bit-reversed) mask -/
 def scrambleKek (kek : Bytes) (mask align : Nat) (reversed : Bool) (i : Nat) : Bytes :=
   let m := if reversed then reverseBits mask 32 else mask
-  let ix := (align >>> (i * otfadScrambleSelBits)) &&& otfadScrambleSelMask
-  kek.take (ix * otfadScrambleWord) ++ xorBytes ((kek.drop (ix * otfadScrambleWord)).take 4) (leEnc 4 m)
-    ++ kek.drop (ix * otfadScrambleWord + 4)
+  let o := scrambleIx align i * otfadScrambleWord
+  kek.take o ++ xorBytes ((kek.drop o).take 4) (leEnc 4 m) ++ kek.drop (o + 4)
 
-/-- `Otfad.encrypt_key_blobs(kek, mask, align, byte_swap_cnt)`; `scr = none` ⇒ scrambling disabled -/
+/-- the loop of `Otfad.encrypt_key_blobs`; `scr = none` ⇒ scrambling disabled -/
 def otfadExportAux (c : CryptoOps) (kek : Bytes) (scr : Option (Nat × Nat)) (reversed : Bool) (swapCnt : Nat) (rnd : Bytes) :
     List KeyBlob → Nat → Bytes → PyRes Bytes
   | [], _, acc => .ok acc
   | kb :: rest, i, acc =>
-    let k := match scr with
-      | some (mask, align) => scrambleKek kek mask align reversed i
-      | none => kek
-    -- `scrambled[(long_ix * 4) + j] ^= …` on a KEK shorter than the word: IndexError
-    if scr.isSome ∧ kek.length < 16 ∧ k.length ≠ kek.length then .error .other
-    else match kb.export c k swapCnt rnd with
+    match scr with
+    | some (mask, align) =>
+      -- `scrambled[(long_ix * 4) + j] ^= …` beyond the end of a short KEK: IndexError
+      if kek.length < scrambleIx align i * otfadScrambleWord + 4 then .error .other
+      else match kb.export c (scrambleKek kek mask align reversed i) swapCnt rnd with
+        | .error e => .error e
+        | .ok e => otfadExportAux c kek scr reversed swapCnt rnd rest (i + 1) (acc ++ e)
+    | none => match kb.export c kek swapCnt rnd with
       | .error e => .error e
       | .ok e => otfadExportAux c kek scr reversed swapCnt rnd rest (i + 1) (acc ++ e)
 
+/-- `Otfad.encrypt_key_blobs(kek, mask, align, byte_swap_cnt)` -/
 def Otfad.encryptKeyBlobs (c : CryptoOps) (bs : List KeyBlob) (kek : Bytes) (scr : Option (Nat × Nat)) (reversed : Bool)
     (swapCnt : Nat) (rnd : Bytes) : PyRes Bytes :=
-  match scr with
-  | some (mask, align) =>
-    if mask ≥ 2 ^ 32 ∨ align ≥ 2 ^ 8 then .error .spsdk
-    else (otfadExportAux c kek scr reversed swapCnt rnd bs 0 []).map (zeroPad otfadTableAlign)
-  | none => (otfadExportAux c kek scr reversed swapCnt rnd bs 0 []).map (zeroPad otfadTableAlign)
+  let bad : Bool := match scr with
+    | some (mask, align) => decide (mask ≥ 2 ^ 32) || decide (align ≥ 2 ^ 8)
+    | none => false
+  if bad then .error .spsdk
+  else match otfadExportAux c kek scr reversed swapCnt rnd bs 0 [] with
+    | .error e => .error e
+    | .ok t => .ok (zeroPad otfadTableAlign t)
 
 /-- `for key_blob in self._key_blobs:` for one block at `addr` — every matching blob overwrites the slice -/
 def otfadBlobsStep (c : CryptoOps) (swap : Bool) (base addr : Nat) (block : Bytes) : List KeyBlob → Bytes → PyRes Bytes
@@ -201,7 +216,7 @@ def otfadLoop (c : CryptoOps) (bs : List KeyBlob) (swap : Bool) (base : Nat) : N
 /-- `Otfad.encrypt_image(image, base_addr, byte_swap)` (fixed: first piece up to the next absolute 1 KiB boundary) -/
 def Otfad.encryptImage (c : CryptoOps) (bs : List KeyBlob) (image : Bytes) (base : Nat) (swap : Bool) : PyRes Bytes :=
   let fl := firstLen otfadDataUnit base image.length
-  let r1 := if fl = 0 then .ok image else otfadBlobsStep c swap base base (image.take fl) bs image
+  let r1 : PyRes Bytes := if fl = 0 then .ok image else otfadBlobsStep c swap base base (image.take fl) bs image
   match r1 with
   | .error e => .error e
   | .ok data => otfadLoop c bs swap base image.length (base + fl) (image.drop fl) data
@@ -329,14 +344,13 @@ def xtsChunks (c : CryptoOps) (k1 k2 : Bytes) : Nat → Nat → Bytes → Bytes
     else xtsEnc c k1 k2 (tweak a) (d.take ieeXtsBlockSize)
       ++ xtsChunks c k1 k2 f (a + (d.take ieeXtsBlockSize).length) (d.drop ieeXtsBlockSize)
 
-/-- `encrypt_image_xts(base, data)` for data that is a multiple of 16 bytes -/
+/-- `encrypt_image_xts(base, data)` for data that is a multiple of 16 bytes.  `cryptography` takes the XTS key
+    `key1 + key2` (32 or 64 bytes), splits it in halves and refuses equal halves. -/
 def encryptImageXts (c : CryptoOps) (b : IeeBlob) (base : Nat) (data : Bytes) : PyRes Bytes :=
   match reverseBytesInLongs b.key1, reverseBytesInLongs b.key2 with
   | .ok k1, .ok k2 =>
     if data.isEmpty then .ok []
-    else if !(validAesKeyLen k1 && k1.length == k2.length) then .error .other   -- XTS key must be 32 or 64 bytes
-    else if k1 == k2 then .error .other    -- "In XTS mode duplicated keys are not allowed"
-    else .ok (xtsChunks c k1 k2 data.length base data)
+    else xtsKeyCheck (k1 ++ k2) (fun ka kb => .ok (xtsChunks c ka kb data.length base data))
   | .error e, _ => .error e
   | _, .error e => .error e
 
@@ -407,10 +421,9 @@ def Iee.encryptKeyBlobs (c : CryptoOps) (bs : List IeeBlob) (ibkek1 ibkek2 : Byt
   | .ok plain =>
     match reverseBytesInLongs ibkek1, reverseBytesInLongs ibkek2 with
     | .ok k1, .ok k2 =>
-      if !(validAesKeyLen k1 && k1.length == k2.length) then .error .other
-      else if k1 == k2 then .error .other
-      else if plain.length < 16 then .error .other
-      else .ok (xtsEnc c k1 k2 (IeeBlob.tweak kbAddr) plain)
+      xtsKeyCheck (k1 ++ k2) (fun ka kb =>
+        if plain.length < 16 ∨ plain.length % 16 ≠ 0 then .error .other   -- (ciphertext stealing is not modelled)
+        else .ok (xtsEnc c ka kb (IeeBlob.tweak kbAddr) plain))
     | .error e, _ => .error e
     | _, .error e => .error e
 
@@ -546,7 +559,7 @@ def beeLoop (c : CryptoOps) (hs : List (Option BeeEngine)) : Nat → Nat → Byt
 /-- `BeeNxp.export_image()` (fixed: first piece up to the next absolute 1 KiB boundary) -/
 def Bee.exportImage (c : CryptoOps) (hs : List (Option BeeEngine)) (image : Bytes) (base : Nat) : PyRes Bytes :=
   let fl := firstLen beeEncrBlockSize base image.length
-  let r1 := if fl = 0 then .ok [] else beeHeadersStep c base hs (image.take fl)
+  let r1 : PyRes Bytes := if fl = 0 then .ok [] else beeHeadersStep c base hs (image.take fl)
   match r1 with
   | .error e => .error e
   | .ok b => beeLoop c hs image.length (base + b.length) (image.drop fl) b
